@@ -336,6 +336,90 @@ def corr_printer(ctx, quick):
     ctx.corr_report("gff-printer-exon-ids", m, v)
 
 
+# ------------------------------------------------------------------ round 3: one worker per chromosome, one database
+PRE_X = "From IQ Require Import Ids IdsSpec IdsMulti IdsMultiSpec.\nOpen Scope Z_scope.\n"
+
+def corr_cross_chromosome(ctx, quick):
+    """REAL FeatureIdStorage / ExcludingIdDistributor objects, one per chromosome, over ONE fake database holding all chromosomes"""
+    from src.id_policy import FeatureIdStorage, SimpleIDDistributor, ExcludingIdDistributor
+    rnd = ctx.rnd
+    # --- exon ids
+    pre = PRE_X + "Definition tc (c:(list db_exon * list (str * list key)) * list (list str)) := c.\nDefinition check := cross_storage_check.\nDefinition prop := cross_storage_prop.\n"
+    cases = []
+    def storages(feats, queries, note=None):
+        outs = []
+        for chr_id, keys in queries:
+            st = FeatureIdStorage(SimpleIDDistributor(), make_exon_db(feats), chr_id, "exon")
+            outs.append(["%s" % st.get_id(k[0], (k[1], k[2], "exon"), k[3]) for k in keys])
+        collisions = sorted(set(a) & set(b) for (c1, _), a in zip(queries, outs) for (c2, _), b in zip(queries, outs) if c1 < c2 and set(a) & set(b))
+        term = "((%s, %s), %s)" % (clist(feats, cdbe), clist(queries, lambda q: "(%s, %s)" % (cs(q[0]), clist(q[1], ckey))), clist(outs, cstrs))
+        cases.append((term, {"reference_features": feats, "queries(chr,keys)": queries, "returned": outs, "ids_shared_between_chromosomes": [sorted(x) for x in collisions], "note": note}))
+        return outs
+    # the witnesses of IdsMulti.v on the real class
+    w = storages([("chrA", "exon", 100, 200, "+", ["chrB.1"]), ("chrB", "exon", 500, 600, "+", ["ENSE7"])],
+                 [("chrA", [("chrA", 100, 200, "+")]), ("chrB", [("chrB", 700, 800, "+")])], "C17_exon_ids_across_chromosomes_without_cross_clean_refuted")
+    if w != [["chrB.1"], ["chrB.1"]]: ctx.broken("witness:exon-ids-across-chromosomes", "the implementation no longer reproduces the model's witness: %r" % (w,))
+    storages([("chrA", "exon", 100, 200, "+", ["ENSE7"]), ("chrB", "exon", 100, 200, "+", ["ENSE7"])],
+             [("chrA", [("chrA", 100, 200, "+")]), ("chrB", [("chrB", 100, 200, "+")])], "C17_exon_ids_shared_reference_id_refuted")
+    storages([], [("chr1", [("chr1", 10, 20, "+"), ("chr1", 30, 40, "+"), ("chr1", 50, 60, "+")]), ("chr1.2", [("chr1.2", 10, 20, "+"), ("chr1.2", 30, 40, "+")])], "C17_dotted_chromosome_names_example")
+    names = ["chr1", "chr1.2", "chr1.2.3", "1", "1.1", "chr1_2", "chrA", "c"]
+    for _ in range(500 if quick else 4000):
+        chrs = rnd.sample(names, rnd.randint(2, 3))
+        coords = [(10 * k, 10 * k + rnd.randint(1, 9)) for k in range(1, 9)]
+        mode = rnd.choice(["none", "isoquant", "isoquant", "foreign", "mixed"])
+        feats = []
+        for c in chrs:
+            for _k in range(rnd.randint(0, 5)):
+                a, b = rnd.choice(coords)
+                if mode == "none": attr = None
+                elif mode == "isoquant": attr = ["%s.%d" % (c, rnd.randint(1, 6))]
+                elif mode == "foreign": attr = ["E%d" % rnd.randint(1, 12)]
+                else: attr = [rnd.choice(["%s.%d" % (rnd.choice(chrs), rnd.randint(1, 4)), "E%d" % rnd.randint(1, 4), "%d" % rnd.randint(1, 3)])]
+                feats.append((c, "exon", a, b, rnd.choice("+-"), attr))
+        queries = [(c, [(c,) + rnd.choice(coords) + (rnd.choice("+-"),) for _k in range(rnd.randint(1, 10))]) for c in chrs]
+        storages(feats, queries, mode)
+    ctx.rule("FeatureIdStorage, one REAL object per chromosome over one fake database with 2-3 chromosomes whose names are prefixes of one another with '.', '_' and digits (chr1, chr1.2, chr1.2.3, 1, 1.1, chr1_2): references without exon_id, IsoQuant-made (<chr>.<n> at home), foreign (E<n>, possibly repeated across chromosomes), mixed (<other chr>.<n>, bare numbers); the three witnesses of IdsMulti.v first; specification = C17_exon_ids_across_chromosomes under the decidable cross_clean_b (sound by IdsMultiSpec.cross_clean_b_sound); non-trivial = cross_clean_b holds for the pair and both chromosomes issue new ids")
+    m, v = ctx.corr("exon-ids-across-chromosomes", pre, typed(cases), shard=200,
+                    nontrivial=lambda o: not o["ids_shared_between_chromosomes"] and o["note"] in ("none", "isoquant", "foreign") and len(o["returned"]) > 1)
+    ctx.corr_report("exon-ids-across-chromosomes", m, v)
+    ctx.notes.append("exon-ids-across-chromosomes: %d of %d cases have an id shared between two chromosomes (all outside cross_clean: the model predicts each of them)" % (
+        sum(1 for _, o in cases if o["ids_shared_between_chromosomes"]), len(cases)))
+    # --- transcript / gene numbers
+    pre = PRE_X + "Definition tc (c:(list db_feature * list (str * Z)) * list (list Z)) := c.\nDefinition check := cross_distributor_check.\nDefinition prop := cross_distributor_prop.\n"
+    cases = []
+    def distributors(feats, queries, note=None):
+        outs = []
+        for chr_id, n in queries:
+            d = ExcludingIdDistributor(make_db(feats), chr_id); outs.append([d.increment() for _ in range(n)])
+        ref_t = set(f[2] for f in feats if f[1] in (1, 2)); ref_g = set(f[2] for f in feats if f[1] == 0)
+        hits = sorted(i for (c, _), xs in zip(queries, outs) for x in xs for i in ("transcript%d.%s.nic" % (x, c), "transcript%d.%s.nnic" % (x, c)) if i in ref_t) + \
+               sorted(i for (c, _), xs in zip(queries, outs) for x in xs for i in ["novel_gene_%s_%d" % (c, x)] if i in ref_g)
+        term = "((%s, %s), %s)" % (clist(feats, cdbf), clist(queries, lambda q: "(%s, %s)" % (cs(q[0]), cz(q[1]))), clist(outs, czs))
+        cases.append((term, {"features(seqid,kind,id)": feats, "queries(chr,n)": queries, "issued": outs, "generated_ids_present_in_reference": hits, "note": note}))
+        return outs
+    w = distributors([("chrA", 1, "transcript1.chrB.nic"), ("chrA", 0, "novel_gene_chrB_2"), ("chrB", 1, "ENST1")], [("chrB", 2), ("chrA", 2)], "C17_novel_ids_without_home_ok_refuted")
+    if w != [[1, 2], [3, 4]]: ctx.broken("witness:distributors-across-chromosomes", "the implementation no longer reproduces the model's witness: %r" % (w,))
+    names = ["chr1", "chr1.2", "1", "1_2", "chr1_2", "chrA", "c", "c.nic"]
+    for _ in range(700 if quick else 5000):
+        chrs = rnd.sample(names, rnd.randint(2, 3)); feats = []
+        misplace = rnd.random() < .3
+        for c in chrs:
+            for _k in range(rnd.randint(0, 7)):
+                home = rnd.choice(chrs) if misplace and rnd.random() < .4 else c; num = rnd.randint(1, 8); r = rnd.random()
+                if r < .4: feats.append((c, rnd.choice([1, 1, 2]), "transcript%d.%s%s" % (num, home, rnd.choice([".nic", ".nnic"]))))
+                elif r < .75: feats.append((c, 0, "novel_gene_%s_%d" % (home, num)))
+                elif r < .85: feats.append((c, 1, rnd.choice(T_POOL)))
+                elif r < .95: feats.append((c, 0, rnd.choice(G_POOL)))
+                else: feats.append((c, 3, "transcript%d.%s.nic" % (num, c)))
+        distributors(feats, [(c, rnd.randint(1, 10)) for c in chrs], "misplaced" if misplace else "home")
+    ctx.rule("ExcludingIdDistributor, one REAL object per chromosome over one fake database with 2-3 chromosomes (names with '.', '_', digits, even 'c.nic'): IsoQuant-made transcript / gene ids at home, in 30% of the databases some on another chromosome, near misses from the C17 pools; the witness of IdsMulti.v first; specification = C17_novel_ids_not_in_whole_reference under the decidable home_ok_b: no id built from an issued number is an id of the database on ANY chromosome; non-trivial = home_ok_b holds and a number was skipped")
+    m, v = ctx.corr("distributors-across-chromosomes", pre, typed(cases), shard=200,
+                    nontrivial=lambda o: o["note"] == "home" and any(xs != list(range(1, len(xs) + 1)) for xs in o["issued"]))
+    ctx.corr_report("distributors-across-chromosomes", m, v)
+    ctx.notes.append("distributors-across-chromosomes: %d of %d cases issue a number whose id exists on another chromosome of the reference (all outside home_ok: the model predicts each of them)" % (
+        sum(1 for _, o in cases if o["generated_ids_present_in_reference"]), len(cases)))
+
+
 # ------------------------------------------------------------------ pipeline: ids_ok on real runs, first and second generation
 def ids_key(o):
     return None
@@ -426,6 +510,7 @@ def run(ctx):
     corr_storage(ctx, quick)
     corr_constructor(ctx, quick)
     corr_printer(ctx, quick)
+    corr_cross_chromosome(ctx, quick)
     ctx.exhaustive = False
     pipeline(ctx, quick)
     ctx.assume.append("gffutils: FeatureDB.region(seqid, start, featuretype) returns the features of that chromosome and type; feature.id is the gene_id / transcript_id (ids are ASCII)")
